@@ -158,12 +158,14 @@ impl Pipeline {
                 ChunkSizeHint::Default => {}
                 ChunkSizeHint::Small => size = size.min(SMALL_CHUNK_SIZE),
                 ChunkSizeHint::Large => size = size.max(LARGE_CHUNK_SIZE),
-                ChunkSizeHint::Exact(s) => return s,
+                ChunkSizeHint::Exact(s) => return s.max(1),
                 ChunkSizeHint::AtMost(s) => size = size.min(s),
             }
         }
 
-        size
+        // A source asked for chunks of zero rows hands out empty chunks for ever
+        // (LIMIT 0 hints "at most 0"): always ask for at least one row.
+        size.max(1)
     }
 
     /// Push a chunk through the operator chain.
@@ -537,5 +539,26 @@ mod tests {
         pipeline.execute().unwrap();
 
         assert_eq!(rows.load(std::sync::atomic::Ordering::Relaxed), 4);
+    }
+
+    #[test]
+    fn test_limit_zero_behind_another_operator_terminates() {
+        use crate::execution::operators::LimitPushOperator;
+        use crate::execution::source::VectorSource;
+
+        // LIMIT 0 hints a chunk size of zero; a source that honours the hint must still
+        // make progress so that the pipeline ends.
+        let rows = std::sync::Arc::new(std::sync::atomic::AtomicUsize::new(0));
+        let values: Vec<Value> = (0..10).map(Value::Int64).collect();
+        let source = Box::new(VectorSource::single_column(values));
+        let sink = Box::new(CountingTestSink(std::sync::Arc::clone(&rows)));
+
+        let mut pipeline = Pipeline::simple(source, sink)
+            .with_operator(Box::new(PassThroughOperator))
+            .with_operator(Box::new(LimitPushOperator::new(0)));
+        assert!(pipeline.compute_chunk_size() >= 1);
+        pipeline.execute().unwrap();
+
+        assert_eq!(rows.load(std::sync::atomic::Ordering::Relaxed), 0);
     }
 }
